@@ -32,6 +32,12 @@ def mk_group(task):
         r.dracrs[0].value = 3 << 8
         r.mpuir.dregion = 12
         g.base = C.M.project(g.arm)
+    if task.get('randmem') is not None:
+        # random memory contents live in the group's base state (events then only override a few bytes)
+        rr = random.Random(task['randmem'])
+        for mc in g.arm.mem.memories:
+            mc.mem.memory_array[:] = bytes(rr.getrandbits(8) for _ in range(len(mc.mem.memory_array)))
+        g.base = C.M.project(g.arm)
     return g
 
 
